@@ -181,10 +181,6 @@ func trunc(s string, n int) string {
 	return s
 }
 
-var (
-	reDigits = regexp.MustCompile(`[0-9]+`)
-	reHex    = regexp.MustCompile(`0x[0-9a-f]+`)
-)
 
 // PanicClass normalises a panic value to a class.
 func PanicClass(v string) string {
@@ -204,9 +200,9 @@ func PanicClass(v string) string {
 	case strings.Contains(v, "stack overflow") || strings.Contains(v, "stack exceeds"):
 		return "stack overflow"
 	}
-	v = reHex.ReplaceAllString(v, "X")
-	v = reDigits.ReplaceAllString(v, "N")
-	return "explicit: " + trunc(v, 60)
+	// a panic(...) statement of the code under test: its message may embed input text, so the class is
+	// just "explicit" (the signature's function part tells the site)
+	return "explicit"
 }
 
 const modPrefix = "github.com/benoitkugler/webrender/"
